@@ -24,11 +24,14 @@ envp = "PYTHONPATH=%s" % wt
 d1 = sh("cd %s && %s /venv/bin/python demo.py" % (wt, envp))
 meta["demo_with_change_exit"] = d1.returncode
 meta["demo_with_change_output"] = (d1.stdout + d1.stderr)[-600:]
-sh("git -C %s stash -q" % wt)
+# NOT git stash: the stash is shared by all worktrees of a repository, and concurrent agents use it too
+sh("git -C %s diff -- pysnark > /tmp/seeded.%s.diff" % (wt, name))     # bytes as they are (CRLF files)
+sh("git -C %s checkout -- pysnark" % wt)
 d0 = sh("cd %s && %s /venv/bin/python demo.py" % (wt, envp))
-sh("git -C %s stash pop -q" % wt)
+ap = sh("git -C %s apply /tmp/seeded.%s.diff" % (wt, name))
+assert ap.returncode == 0, "could not re-apply the patch: " + ap.stderr
 meta["demo_without_change_exit"] = d0.returncode
-assert sh("git -C %s diff -- pysnark" % wt).stdout == patch, "stash pop did not restore the change"
+assert sh("git -C %s diff -- pysnark" % wt).stdout == patch, "re-applying the patch did not restore the change"
 meta["confirmed"] = ("passed" in meta["suite_with_change"] and "failed" not in meta["suite_with_change"]
                      and d1.returncode != 0 and d0.returncode == 0)
 res = {}
@@ -40,7 +43,8 @@ meta["checks_quick"] = res
 meta["detected_by"] = [c for c, v in res.items() if v["exit"] == 1]
 out = os.path.join(HERE, "seeded", name)
 os.makedirs(out, exist_ok=True)
-open(os.path.join(out, "patch.diff"), "w").write(patch)
+shutil.copy("/tmp/seeded.%s.diff" % name, os.path.join(out, "patch.diff"))
+os.remove("/tmp/seeded.%s.diff" % name)
 shutil.copy(os.path.join(wt, "demo.py"), os.path.join(out, "demo.py"))
 meta["how_to_run"] = ("git -C /repo apply /verif/seeded/%s/patch.diff; ./check <ID>; git -C /repo checkout -- . ; demo: "
                       "PYTHONPATH=<tree with the patch> /venv/bin/python demo.py (exit 1 with the change, 0 without; the demo was "
